@@ -3,10 +3,14 @@
 (* then loop: stop flag? ; NextIteration (atomic add-and-compare against the limit) ; body.          *)
 (* The limit path cancels the worker context; a separate goroutine turns that into the stop flag.    *)
 EXTENDS Integers, FiniteSets
-CONSTANTS Workers, MaxIter, AllowCancel, BodiesEnd
+CONSTANTS Workers, MaxIter, AllowCancel, BodiesEnd,
+          PreCancelled,   \* the context handed to Start is already done (cancelled while setup was running)
+          SyncFlag        \* Start sets the stop flag itself when it finds the context done (fix b1d37bc); FALSE = the
+                          \* original code, where only the stop goroutine ever sets it
 VARIABLES wpc, arrived, stopFlag, wcancel, spc, iter, ids, bodies
 vars == <<wpc, arrived, stopFlag, wcancel, spc, iter, ids, bodies>>
-Init == /\ wpc = [w \in Workers |-> "barrier"] /\ arrived = {} /\ stopFlag = FALSE /\ wcancel = FALSE /\ spc = "wait"
+Init == /\ wpc = [w \in Workers |-> "barrier"] /\ arrived = {} /\ spc = "wait"
+        /\ wcancel = PreCancelled /\ stopFlag = (PreCancelled /\ SyncFlag)
         /\ iter = 0 /\ ids = {} /\ bodies = 0
 W(w, l) == wpc' = [wpc EXCEPT ![w] = l]
 Arrive(w) == /\ wpc[w] = "barrier" /\ w \notin arrived /\ arrived' = arrived \cup {w}
@@ -37,5 +41,7 @@ NoStartBeforeAll == (\E w \in Workers : wpc[w] \notin {"barrier"}) => arrived = 
 \* the trigger keeps requesting: with a limit exactly MaxIter bodies run and everything ends
 ExactlyN == (MaxIter > 0 /\ BodiesEnd) => <>(Cardinality(ids) = MaxIter /\ \A w \in Workers : wpc[w] = "exit")
 Termination == wcancel ~> (BodiesEnd => \A w \in Workers : wpc[w] = "exit")
+\* C05: a pool started on a context that is already done starts nothing
+NothingOnADeadContext == PreCancelled => ids = {}
 AllBusy == (~BodiesEnd /\ MaxIter = 0 /\ ~AllowCancel) => <>(\A w \in Workers : wpc[w] = "body")
 =============================================================================
